@@ -158,7 +158,10 @@ func (r *Run) KnownHits() map[string]int {
 func (r *Run) Finish(cov map[string]any) {
 	r.mu.Lock()
 	defer r.mu.Unlock()
-	if _, ok := cov["samples"]; !ok {
+	if v, ok := cov["samples"]; !ok || v == nil {
+		if r.samples == nil {
+			r.samples = []any{}
+		}
 		cov["samples"] = r.samples
 	}
 	if len(r.knownHits) > 0 {
@@ -235,7 +238,7 @@ func Shard() (int, int, bool) {
 func (r *Run) FinishPart(cov map[string]any) {
 	r.mu.Lock()
 	defer r.mu.Unlock()
-	if _, ok := cov["samples"]; !ok {
+	if _, ok := cov["samples"]; !ok && len(r.samples) > 0 {
 		cov["samples"] = r.samples
 	}
 	cov["_violations"] = r.violations
